@@ -98,6 +98,7 @@ Inductive op :=
 | RecvClose (m : msz)
 | Recv (size : nat)
 | SetMaxsize (m : limit)          (* setmaxsize(n) / setmaxsize(None) *)
+| BadFlags (sending : bool) (data : bytes)   (* recv(1, flags=1) / send(data, flags=1): ValueError, nothing happens *)
 | Send (data : bytes)             (* send and sendall are the same method *)
 | Buffer (data : bytes)
 | Flush.
